@@ -66,6 +66,9 @@ func (s *Subscribe) Decode(src []byte) (int, error) {
 		return total, err
 	}
 
+	// limit buffer to the packet
+	src = src[:total+rl]
+
 	// check buffer length
 	if len(src) < total+2 {
 		return total, insufficientBufferSize(SUBSCRIBE)
